@@ -39,28 +39,28 @@ def step (st : Unit) (j : Json) : Unit × List String :=
   let out : Outcome :=
     match jStr j "c" with
     | "parsejwt" =>
-      let E : Env := { resolve := fun _ => if jBool v "keyfound" then some "K" else none, embeddedKey := fun _ => none,
+      let E : Env := { fits := fun _ _ => jBool v "fits", resolve := fun _ => if jBool v "keyfound" then some "K" else none, embeddedKey := fun _ => none,
                        verifies := fun _ _ _ => jBool v "verified", verifiesSplit := fun _ _ _ => false }
       parseJWT Facts.C17.supportedAlgs E info
     | "jar" =>
-      let E : Env := { resolve := fun _ => if jBool v "keyfound" then some "K" else none, embeddedKey := fun _ => none,
+      let E : Env := { fits := fun _ _ => jBool v "fits", resolve := fun _ => if jBool v "keyfound" then some "K" else none, embeddedKey := fun _ => none,
                        verifies := fun _ _ _ => jBool v "verified", verifiesSplit := fun _ _ _ => false }
       let J : JarEnv := { clientIdMatches := jBool v "clientid", configOK := jBool v "configok",
                           clientKey := fun _ => if jBool v "clientkey" then some "K" else none }
       jarValidate Facts.C17.supportedAlgs E J info
     | "vcjwt" =>
       -- the harness resolved (kid, or the issuer when kid is absent): `keyfound` is about that lookup
-      let E : Env := { resolve := fun _ => if jBool v "keyfound" then some "K" else none, embeddedKey := fun _ => none,
+      let E : Env := { fits := fun _ _ => jBool v "fits", resolve := fun _ => if jBool v "keyfound" then some "K" else none, embeddedKey := fun _ => none,
                        verifies := fun _ _ _ => jBool v "verified", verifiesSplit := fun _ _ _ => false }
       let didOf := fun (kid : String) => (kid.splitOn "#").headD ""
       vcJwtSignature Facts.C17.supportedAlgs E (jStr j "issuer") didOf info
     | "authzv1" =>
-      let E : Env := { resolve := fun _ => if jBool v "keyfound" then some "K" else none, embeddedKey := fun _ => none,
+      let E : Env := { fits := fun _ _ => jBool v "fits", resolve := fun _ => if jBool v "keyfound" then some "K" else none, embeddedKey := fun _ => none,
                        verifies := fun _ _ _ => jBool v "verified", verifiesSplit := fun _ _ _ => false }
       let didOf := fun (kid : String) => (kid.splitOn "#").headD ""
       authzV1 Facts.C17.supportedAlgs Facts.C17.authzV1ChecksKidIssuer E (jStr j "issuer") (jBool v "issparses") didOf info
     | "introspect" =>
-      let E : Env := { resolve := fun _ => if jBool v "keyfound" && jBool v "ownkey" then some "K" else none, embeddedKey := fun _ => none,
+      let E : Env := { fits := fun _ _ => jBool v "fits", resolve := fun _ => if jBool v "keyfound" && jBool v "ownkey" then some "K" else none, embeddedKey := fun _ => none,
                        verifies := fun _ _ _ => jBool v "verified", verifiesSplit := fun _ _ _ => false }
       parseJWT Facts.C17.supportedAlgs E info
     | "ldproof" =>
@@ -79,7 +79,7 @@ def step (st : Unit) (j : Json) : Unit × List String :=
       let ver := jBools v "verified"
       -- the key source answers per signature (by its kid): signature i's key is "K<i>" when found
       let kids := info.sigs.map (·.kid)
-      let E : Env := { resolve := fun kid => match kids.idxOf? kid with
+      let E : Env := { fits := fun _ _ => jBool v "fits", resolve := fun kid => match kids.idxOf? kid with
                                    | some i => if nth found i then some s!"K{i}" else none
                                    | none => none
                        embeddedKey := fun _ => none
@@ -87,13 +87,16 @@ def step (st : Unit) (j : Json) : Unit × List String :=
                        verifiesSplit := fun _ _ i => nth ver i }
       parseJWS Facts.C17.supportedAlgs Facts.C17.parseJWSCountRule Facts.C17.parseJWSVerifyMode E info
     | "dpop" =>
+      -- when dpop.Parse itself tests jwx.AlgorithmFitsKey (regenerated fact) the fit is part of "verified"
       let E : Env := { resolve := fun _ => none, embeddedKey := fun _ => some "E",
-                       verifies := fun _ _ _ => jBool v "verified", verifiesSplit := fun _ _ _ => false }
+                       verifies := fun _ _ _ => jBool v "verified" && (!Facts.C17.dpopChecksAlgFit || jBool v "fits"),
+                       verifiesSplit := fun _ _ _ => false }
       dpopParse Facts.C17.supportedAlgs Facts.C17.dpopTyp E (jBool v "claimsok") info
     | "dagtx" =>
       let kf := jBool v "keyfound"
       let E : Env := { resolve := fun _ => if kf then some "K" else none, embeddedKey := fun _ => if kf then some "E" else none,
-                       verifies := fun _ _ _ => jBool v "verified", verifiesSplit := fun _ _ _ => false }
+                       verifies := fun _ _ _ => jBool v "verified" && (!Facts.C17.dagChecksAlgFit || jBool v "fits"),
+                       verifiesSplit := fun _ _ _ => false }
       dagTx Facts.C17.dagAllowedAlgs Facts.C17.dagRejectsPrivateJwk Facts.C17.dagStrictFraming E (jBool v "otherok") (jBool v "framing") info
     | "apitoken" =>
       let nf := jNat v "nfields"
